@@ -132,6 +132,7 @@ fn replay_one(out: &mut Out, op: &str, a: &[Vec<u8>]) {
         "serde_roundtrip" => out.case(op, &refs, || serde_suite::serde_roundtrip(a0)),
         "serde_nonstring" => out.case(op, &refs, || serde_suite::serde_nonstring(a0)),
         "loc_meta" => out.case(op, &refs, || locale::loc_meta(a0, a1)),
+        "ext_meta" => out.case(op, &refs, || locale::ext_meta(a0, a1)),
         "li_meta" => out.case(op, &refs, || locale::li_meta(a0, a1)),
         "maximize" => out.case(op, &refs, || likely::maximize(a0, a1, a2)),
         "minimize" => out.case(op, &refs, || likely::minimize(a0, a1, a2)),
